@@ -1,8 +1,111 @@
-(* C15 -- property theorems only. *)
+(* C15 -- property theorems only.  The programs [lookup_prog] / [register_prog] are the instruction
+   lists translated from the Python source on this run (Gen/Facts_C15.v); every theorem quantifies
+   over all resolution-order oracles [sro], all initial registrations [R0] and ALL traces (any number
+   of threads, any number of steps, any interleaving; every instruction atomic). *)
 From Coq Require Import List NArith Bool.
 Import ListNotations.
 Require Import Verif.Lib.Wire Verif.Lib.C15Prog Verif.Gen.Facts_C15 Verif.Model.C15 Verif.Proofs.C15.
 
-Theorem C15_facts_lookup_prog : lookup_prog = std_lookup Local true.
-Proof. exact facts_lookup_prog. Qed.
-Print Assumptions C15_facts_lookup_prog.
+(* the translated programs are the ones the development is about (parameters: write through the
+   local, [if views:] guard present, cache cleared by swapping in a new dictionary after registering) *)
+Theorem C15_facts_programs :
+  lookup_prog = std_lookup Local true /\ register_prog = std_register Swap.
+Proof. exact (conj facts_lookup_prog facts_register_prog). Qed.
+Print Assumptions C15_facts_programs.
+
+(* cache_inv: whenever no registration is between its two instructions, every entry of the current
+   cache equals lookup_all of the registrations and is non-empty, and every in-flight lookup that
+   holds the current dictionary has partial results consistent with the registrations *)
+Theorem C15_cache_inv : forall sro R0 tr,
+  let st := exec sro lookup_prog register_prog tr (init R0) in
+  quietb st = true ->
+  (forall k vs, dget (heap st (cur st)) k = Some vs -> vs = lookup_all sro (R st) k /\ vs <> []) /\
+  (forall i t vs, threads st i = Some t -> tkind t = KLookup -> cont t <> [] ->
+                  tc t = Some (cur st) -> tviews t = Some vs ->
+                  exists dn, dn ++ pending sro (tkey t) (cont t) = slots_of sro (tkey t) /\
+                             vs = lookup_over (R st) dn).
+Proof. exact cache_inv. Qed.
+Print Assumptions C15_cache_inv.
+
+(* lookup_fresh: a lookup that starts when no registration is in progress, and during which the
+   registrations do not change, returns lookup_all of the registrations in force -- whatever happened
+   before (tr1: identical or different lookups, cold or warm cache, lookups still in flight) and
+   whatever other threads do meanwhile (tr2) *)
+Theorem C15_lookup_fresh : forall sro R0 tr1 k tr2,
+  let st1 := exec sro lookup_prog register_prog tr1 (init R0) in
+  let st2 := exec sro lookup_prog register_prog (SpawnLookup k :: tr2) st1 in
+  quietb st1 = true ->
+  reg_free sro lookup_prog register_prog st1 (SpawnLookup k :: tr2) = true ->
+  exists t, threads st2 (ntid st1) = Some t /\ tkind t = KLookup /\ tkey t = k /\
+            (cont t = [] -> tres t = Some (lookup_all sro (R st1) k)).
+Proof. exact lookup_fresh. Qed.
+Print Assumptions C15_lookup_fresh.
+
+(* no_stale_after_register: thread i registers [tups ti] (first instruction), anything that does not
+   register happens -- lookups may be in progress across the registration -- and once no registration
+   is in progress (so i has cleared the cache) every lookup that starts sees the NEW registrations *)
+Theorem C15_no_stale_after_register : forall sro R0 tr0 i ti trm k tr2,
+  let st0 := exec sro lookup_prog register_prog tr0 (init R0) in
+  let st1 := exec sro lookup_prog register_prog (Step i :: trm) st0 in
+  let st2 := exec sro lookup_prog register_prog (SpawnLookup k :: tr2) st1 in
+  threads st0 i = Some ti -> tkind ti = KRegister -> cont ti = register_prog ->
+  reg_free sro lookup_prog register_prog (do_label sro lookup_prog register_prog st0 (Step i)) trm = true ->
+  quietb st1 = true ->
+  reg_free sro lookup_prog register_prog st1 (SpawnLookup k :: tr2) = true ->
+  exists t, threads st2 (ntid st1) = Some t /\ tkind t = KLookup /\ tkey t = k /\
+            (cont t = [] -> tres t = Some (lookup_all sro (rapply (tups ti) (R st0)) k)).
+Proof. exact no_stale_after_register. Qed.
+Print Assumptions C15_no_stale_after_register.
+
+(* misses_not_cached: no dictionary ever holds an empty answer, and when no registration is in
+   progress a key whose lookup finds nothing is absent from the current cache *)
+Theorem C15_misses_not_cached : forall sro R0 tr,
+  let st := exec sro lookup_prog register_prog tr (init R0) in
+  (forall c k vs, dget (heap st c) k = Some vs -> vs <> []) /\
+  (quietb st = true -> forall k, lookup_all sro (R st) k = [] -> dget (heap st (cur st)) k = None).
+Proof. exact misses_not_cached. Qed.
+Print Assumptions C15_misses_not_cached.
+
+(* concurrent_equals_sequential: registrations fixed, any number of lookup threads interleaved in any
+   way: every finished lookup returned lookup_all of its key, which is the answer of every
+   single-threaded run of the same lookup *)
+Theorem C15_concurrent_equals_sequential : forall sro R0 tr j t,
+  reg_free sro lookup_prog register_prog (init R0) tr = true ->
+  threads (exec sro lookup_prog register_prog tr (init R0)) j = Some t -> tkind t = KLookup -> cont t = [] ->
+  tres t = Some (lookup_all sro R0 (tkey t)) /\
+  forall n t0,
+    threads (exec sro lookup_prog register_prog (SpawnLookup (tkey t) :: repeat (Step 0) n) (init R0)) 0 = Some t0 ->
+    cont t0 = [] -> tres t = tres t0.
+Proof. exact concurrent_equals_sequential. Qed.
+Print Assumptions C15_concurrent_equals_sequential.
+
+(* the executable expectation with which the harness judges the implementation is sound: whenever it
+   constrains lookup j, the lookup of the model returns exactly that *)
+Theorem C15_expect_sound : forall sro R0 tr j vs t,
+  expect sro lookup_prog register_prog (init R0) tr (fun _ => None) j = Some vs ->
+  threads (exec sro lookup_prog register_prog tr (init R0)) j = Some t -> cont t = [] ->
+  tkind t = KLookup /\ tres t = Some vs.
+Proof. exact expect_sound. Qed.
+Print Assumptions C15_expect_sound.
+
+(* every other value of the program parameters is refuted by a concrete schedule (also replayed on
+   the implementation by the violation search) *)
+Theorem C15_lookup_fresh_Reread_refuted : ~ fresh_claim (std_lookup Reread true) (std_register Swap).
+Proof. exact lookup_fresh_Reread_refuted. Qed.
+Print Assumptions C15_lookup_fresh_Reread_refuted.
+
+Theorem C15_lookup_fresh_InPlace_refuted : ~ fresh_claim (std_lookup Local true) (std_register InPlace).
+Proof. exact lookup_fresh_InPlace_refuted. Qed.
+Print Assumptions C15_lookup_fresh_InPlace_refuted.
+
+Theorem C15_lookup_fresh_NoClear_refuted : ~ fresh_claim (std_lookup Local true) [RegisterAdapter].
+Proof. exact lookup_fresh_NoClear_refuted. Qed.
+Print Assumptions C15_lookup_fresh_NoClear_refuted.
+
+Theorem C15_lookup_fresh_ClearFirst_refuted : ~ fresh_claim (std_lookup Local true) [Clear Swap; RegisterAdapter].
+Proof. exact lookup_fresh_ClearFirst_refuted. Qed.
+Print Assumptions C15_lookup_fresh_ClearFirst_refuted.
+
+Theorem C15_misses_not_cached_Unguarded_refuted : ~ misses_claim (std_lookup Local false) (std_register Swap).
+Proof. exact misses_not_cached_Unguarded_refuted. Qed.
+Print Assumptions C15_misses_not_cached_Unguarded_refuted.
